@@ -50,6 +50,7 @@ def main():
         jsonschema.validate(man, json.load(open("/root/.vp/MANIFEST.schema.json")))
         print("MANIFEST valid:", len(checks), "checks,", len(na), "not claimed")
     except ImportError:
-        print("MANIFEST written (jsonschema not available for validation)")
+        r = subprocess.run(["python3-vt", "-c", "import json,jsonschema;jsonschema.validate(json.load(open('%s')),json.load(open('/root/.vp/MANIFEST.schema.json')));print('MANIFEST valid')" % (ROOT / "MANIFEST.json")], capture_output=True, text=True)
+        print((r.stdout + r.stderr).strip()[-400:], len(checks), "checks,", len(na), "not claimed")
 
 main()
